@@ -1012,7 +1012,22 @@ func (m *Mint) settleProofs(Ys []string, proofs cashu.Proofs) error {
 	return nil
 }
 
-func (m *Mint) ProofsStateCheck(Ys []string) ([]nut07.ProofState, error) {
+func (m *Mint) ProofsStateCheck(requestYs []string) ([]nut07.ProofState, error) {
+	// the state belongs to the point Y, however the request spells it
+	// (proofs are stored under the compressed lower-case hex form)
+	Ys := make([]string, len(requestYs))
+	for i, y := range requestYs {
+		yBytes, err := hex.DecodeString(y)
+		if err != nil {
+			return nil, cashu.BuildCashuError("invalid Y", cashu.StandardErrCode)
+		}
+		point, err := secp256k1.ParsePubKey(yBytes)
+		if err != nil {
+			return nil, cashu.BuildCashuError("invalid Y", cashu.StandardErrCode)
+		}
+		Ys[i] = hex.EncodeToString(point.SerializeCompressed())
+	}
+
 	// status of proofs that are pending due to an in-flight lightning payment
 	// could have changed so need to check with the lightning backend the status
 	// of the payment
@@ -1077,7 +1092,7 @@ func (m *Mint) ProofsStateCheck(Ys []string) ([]nut07.ProofState, error) {
 			witness = pendingProofs[YPendingIdx].Witness
 		}
 
-		proofStates[i] = nut07.ProofState{Y: y, State: state, Witness: witness}
+		proofStates[i] = nut07.ProofState{Y: requestYs[i], State: state, Witness: witness}
 	}
 
 	return proofStates, nil
